@@ -856,10 +856,15 @@ def c18(run):
 
 # ------------------------------------------------------------------------------------------- C17
 _DSL_TXT = {"copied": "copied()", "flatten": "flatten()", "enumerate": "enumerate()", "map": "map(|x| x)", "rev": "rev()", "skip": "skip(1)",
+            "take": "take(2)", "filter": "filter(|_| true)", "filter_map": "filter_map(|x| Some(x))",
+            "take_while": "take_while(|_| true)", "skip_while": "skip_while(|_| false)", "zip": "zip(&[1u8, 2, 3])",
+            "flat_map": "flat_map(|_| &[7u32, 8])",
             "count": "count()", "next": "next()", "rfind": "rfind(|_| true)", "rfold": "rfold(0u32, |a, _| a)",
-            "rposition": "rposition(|_| true)", "find": "find(|_| true)"}
+            "rposition": "rposition(|_| true)", "find": "find(|_| true)",
+            "all": "all(|_| true)", "any": "any(|_| false)", "find_map": "find_map(|x| Some(x))", "fold": "fold(0u32, |a, _| a)",
+            "for_each": "for_each(|_| ())", "nth": "nth(1)", "position": "position(|_| true)"}
 _DSL_SPUR = {"copied": "copied(1)", "flatten": "flatten(1)", "enumerate": "enumerate(1)", "rev": "rev(1)", "count": "count(1)", "next": "next(1)"}
-_CONSUMERS = {"count", "next", "rfind", "rfold", "rposition", "find"}
+_CONSUMERS = {"count", "next", "rfind", "rfold", "rposition", "find", "all", "any", "find_map", "fold", "for_each", "nth", "position"}
 
 
 def _dsl_program(r):
@@ -948,7 +953,7 @@ def _verdict_items(run):
                 items.append(("d%d_%s_mut" % (k, fl), gd.verdict_program(r, fl, refmut=True), r["verdict"],
                               dict(r, flavor=fl + "/&mut", mac="destructure!")))
     gout = vec("C17-MacroGuards.ndjson")
-    run.mc("MC_MacroGuards", "MacroGuards.cfg", env={"OUT": gout}, heap="2g", timeout=600)
+    run.mc("MC_MacroGuards", "MacroGuards.cfg" if run.tier == "quick" else "MacroGuards.thorough.cfg", env={"OUT": gout}, heap="6g", timeout=1800)
     for k, l in enumerate(open(gout)):
         r = json.loads(l)
         if r["kind"] == "dsl":
